@@ -302,6 +302,9 @@ class Interp:
                         f.doc_target = self.eval(d.args[0], Env(None, {}), mi)
                     except Unsupported:
                         f.doc_target = None
+            if dn in ("torch.no_grad", "no_grad", "torch.inference_mode"):
+                f.decorators.append("ctx:" + dn)
+                continue
             if dn is None or (dn not in TRANSPARENT_DECORATORS and short not in TRANSPARENT_DECORATORS):
                 f.transparent = False
             f.decorators.append(dn)
@@ -447,6 +450,9 @@ class Interp:
         if self.depth >= self.MAX_DEPTH or self.call_stack.count(f.qualname) > 40:
             raise Unsupported(f"inlining bound reached at {f.qualname}")
         self.log("enter", node, func=f, bound=bound)
+        for d_ in f.decorators:
+            if isinstance(d_, str) and d_.startswith("ctx:"):
+                self.log("with", node, ctx=ExtV(d_[4:] + "()"))  # decorator form of a context manager
         env = Env(f.env, bound)
         if f.cls is not None:
             env.vars["__class__"] = f.cls
@@ -750,6 +756,50 @@ class Interp:
                     if kind == "return":
                         return ("return", val)
             return None
+        if isinstance(st, ast.Try):
+            mark = len(self.events)
+            kind, val = self.exec_stmts(list(st.body), env, mi, lambda e: ("next", None))
+            raised = kind == "return" and val is BOTTOM
+            out: Optional[Tuple[str, Any]] = None
+            if raised:
+                excs = [e for e in self.events[mark:] if e.kind == "raise" and e.guard == tuple(self.guard)]
+                exc = excs[-1]["exc"] if excs else None
+                handler = None
+                for h in st.handlers:
+                    names = []
+                    if h.type is None:
+                        names = ["*"]
+                    elif isinstance(h.type, ast.Tuple):
+                        names = [(_dotted(x) or "").split(".")[-1] for x in h.type.elts]
+                    else:
+                        names = [(_dotted(h.type) or "").split(".")[-1]]
+                    base = (exc or "").split("(")[0]
+                    if "*" in names or base in names or "Exception" in names or "BaseException" in names or (base in ("KeyError", "IndexError") and "LookupError" in names):
+                        handler = h
+                        break
+                if handler is None or exc is None:
+                    out = ("raise", None)
+                else:
+                    # the exception is handled: it is not an observable raise of the enclosing function
+                    last = excs[-1]
+                    self.events.remove(last)
+                    self.log("handled", st, exc=exc)
+                    if handler.name:
+                        env.vars[handler.name] = Obj("builtins." + base, term=T("exc", (base,)))
+                    k2, v2 = self.exec_stmts(list(handler.body), env, mi, lambda e: ("next", None))
+                    if k2 != "next":
+                        out = (k2, v2) if not (k2 == "return" and v2 is BOTTOM) else ("raise", None)
+            elif kind != "next":
+                out = (kind, val)
+            elif st.orelse:
+                k2, v2 = self.exec_stmts(list(st.orelse), env, mi, lambda e: ("next", None))
+                if k2 != "next":
+                    out = (k2, v2) if not (k2 == "return" and v2 is BOTTOM) else ("raise", None)
+            if st.finalbody:
+                k3, v3 = self.exec_stmts(list(st.finalbody), env, mi, lambda e: ("next", None))
+                if k3 != "next":
+                    out = (k3, v3) if not (k3 == "return" and v3 is BOTTOM) else ("raise", None)
+            return out
         if isinstance(st, ast.While):
             for _ in range(20000):
                 c = self.truth(self.eval(st.test, env, mi), st)
@@ -1180,6 +1230,8 @@ class Interp:
         for op, rn in zip(n.ops, n.comparators):
             right = self.eval(rn, env, mi)
             r = self.lift(lambda x, y: self.compare(op, x, y, n), left, right)
+            if len(n.ops) == 1 and isinstance(r, TV) and r.kind == "tensor":
+                return r  # elementwise tensor comparison: a tensor value, not a truth value
             t = self.truth(r, n) if not isinstance(r, (T, sp.Basic)) else r
             if t is False:
                 return False
@@ -1662,6 +1714,10 @@ def _set_method(it: "Interp", st: set, attr: str, a: List[Any], k: Dict[str, Any
         return r
     if attr == "issubset":
         return st <= other(a[0])
+    if attr == "isdisjoint":
+        return st.isdisjoint(other(a[0]))
+    if attr == "issuperset":
+        return st >= other(a[0])
     raise Unsupported(f"set.{attr}")
 
 
@@ -1702,6 +1758,11 @@ def _list_method(it: Interp, l: List[Any], attr: str, a: List[Any], k: Dict[str,
         return list(l)
     if attr == "pop":
         return l.pop(*a)
+    if attr == "popleft":
+        return l.pop(0)
+    if attr == "appendleft":
+        l.insert(0, a[0])
+        return None
     if attr == "insert":
         l.insert(a[0], a[1])
         return None
